@@ -112,8 +112,10 @@ def seq_query(arrs, k, sid):
 class SeqWorld(object):
     """real objects of one recorded state: trees, arrays, which arrays are still in use, next tree to add"""
 
-    def __init__(self, ns, trees, arrs):
+    def __init__(self, ns, trees, arrs, specs=None, r=0):
         self.ns, self.trees, self.arrs = ns, trees, arrs
+        self.specs, self.r = specs, r           # nested form and weight of every sample tree, rooting token: for text sources
+        self.labels = [t.label for t in ns]
         self.alive = set(range(1, len(arrs) + 1))
         self.nxt = 1
         self.q = set()          # arrays whose summaries have been asked for: asked again after every later call on them
@@ -121,9 +123,53 @@ class SeqWorld(object):
     def clone(self):
         # one pickle round trip of everything keeps the sharing of the namespace between trees and arrays
         ns, trees, arrs = pickle.loads(pickle.dumps((self.ns, self.trees, self.arrs), pickle.HIGHEST_PROTOCOL))
-        w = SeqWorld(ns, trees, arrs)
+        w = SeqWorld(ns, trees, arrs, self.specs, self.r)
         w.alive, w.nxt, w.q = set(self.alive), self.nxt, set(self.q)
         return w
+
+    def read(self, k, route, sizes, offset):
+        """the next sum(sizes) sample trees arrive as text sources (files, unnamed streams, strings) of the given sizes;
+        the first `offset` trees of every source are burn-in"""
+        import io
+        a = self.arrs[k - 1]
+        srcs, texts = [], []
+        for n in sizes:
+            ids = list(range(self.nxt, min(self.nxt + n, len(self.trees) + 1)))
+            self.nxt += len(ids)
+            if ids:
+                srcs.append(ids)
+                texts.append("".join(X.newick_of_nested(self.specs[t - 1]["nested"], self.r, self.specs[t - 1]["w"], self.labels) + "\n" for t in ids))
+        if route == "files-repeat" and srcs:      # the same path listed twice, consecutively
+            srcs, texts = [srcs[0], srcs[0]] + srcs[1:], [texts[0]] + texts[1:]
+        pre = X.proj_array(a)
+        kw = {"schema": "newick", "tree_offset": offset, "store_tree_weights": True}
+        tmpdir = tempfile.mkdtemp(prefix="c06_")
+        try:
+            paths = []
+            for h, txt in enumerate(texts):
+                paths.append(os.path.join(tmpdir, "s%d.nwk" % h))
+                with open(paths[-1], "w") as fh:
+                    fh.write(txt)
+            if route == "files-paths":
+                raised, _ = _call(lambda: a.read_from_files(files=list(paths), **kw))
+            elif route == "files-repeat":
+                raised, _ = _call(lambda: a.read_from_files(files=[paths[0]] + list(paths), **kw))
+            elif route == "files-streams":
+                raised, _ = _call(lambda: a.read_from_files(files=[io.StringIO(t) for t in texts], **kw))
+            else:
+                def each():
+                    for pth, txt in zip(paths, texts):
+                        if route == "read-path":
+                            a.read(path=pth, **kw)
+                        elif route == "read-stream":
+                            a.read(file=io.StringIO(txt), **kw)
+                        else:
+                            a.read(data=txt, **kw)
+                raised, _ = _call(each)
+        finally:
+            shutil.rmtree(tmpdir, ignore_errors=True)
+        return {"action": "Read", "route": route, "k": k, "offset": offset, "srcs": srcs, "pre": pre,
+                "post": X.proj_array(a), "raised": raised}
 
     def step(self, op, rng, sid, newsid, query=True, warm=False):
         """one model transition on the real objects -> events (the call, then the queries the history asks for).
@@ -131,11 +177,29 @@ class SeqWorld(object):
         arrs = self.arrs
         if op[0] == "Query":
             k = op[1]
+            if len(arrs[k - 1]._tree_split_bitmasks) == 0:
+                return [], sid          # (a random history may ask after a merge that failed: nothing to summarise)
             self.q.add(k)
             if query:
                 return [seq_query(arrs, k, sid)], sid
             X.queries(arrs[k - 1])                  # part of the history of this state, judged where it was a fan transition
             return [], sid
+        if op[0] in ("Read", "ReadFiles"):
+            k = op[1]
+            if op[0] == "ReadFiles":        # model transition: everything not yet added, as sources of two trees
+                left = len(self.trees) - self.nxt + 1
+                sizes, offset = [2] * (left // 2) + [1] * (left % 2), op[2]
+                route = rng.choice(("files-paths", "files-streams", "read-path", "read-stream", "read-data"))
+            else:
+                route, sizes, offset = op[2], op[3], op[4]
+            ev = self.read(k, route, sizes, offset)
+            ev["from"], ev["to"] = sid, newsid
+            ev["others"] = [[o, X.proj_array(arrs[o - 1])] for o in range(1, len(arrs) + 1)
+                            if o != k and (o not in self.alive or len(arrs[o - 1]._tree_split_bitmasks) > 0)]
+            evs = [ev]
+            if query and len(arrs[k - 1]._tree_split_bitmasks) > 0 and k in self.q:
+                evs.append(seq_query(arrs, k, newsid))
+            return evs, newsid
         if op[0] == "AddTree":
             k, i = op[1], op[2]
             n = len(arrs[k - 1]._tree_split_bitmasks)
@@ -172,7 +236,7 @@ def run_seq(case):
     import dendropy
     rng = random.Random(case["seed"])
     ns, trees, arrs, setup = seq_world(dendropy, case)
-    w = SeqWorld(ns, trees, arrs)
+    w = SeqWorld(ns, trees, arrs, case["trees"], case["r"])
     evs = [setup]
     sid = 1
     top = 1
@@ -264,7 +328,17 @@ def random_seq_case(seed, thorough):
     kept = 0
     while left > 0 or len(alive) > 1:
         x = rng.random()
-        if left > 0 and (len(alive) == 1 or x < 0.5):
+        if left > 1 and x < 0.12:
+            # some of the next trees arrive as text sources with a burn-in
+            k = rng.choice(alive)
+            src = [rng.randint(1, 3) for _ in range(rng.randint(1, 3))]
+            off = rng.choice((0, 1, 1, 2))
+            route = rng.choice(("files-paths", "files-streams", "files-streams", "files-repeat", "read-path", "read-stream", "read-data"))
+            ops.append(["Read", k, route, src, off])
+            used = min(left, sum(src))
+            sizes[k] += used            # an upper bound is enough for the generator (insert positions are clamped)
+            left -= used
+        elif left > 0 and (len(alive) == 1 or x < 0.5):
             k = rng.choice(alive)
             ops.append(["AddTree", k, rng.randint(0, sizes[k])])
             sizes[k] += 1
@@ -321,31 +395,57 @@ def _t1_first(nested):
     return nested
 
 
+def _dated(nested, rng, tips):
+    """edge lengths such that every node has one age, the leaves having the given tip ages (integers)"""
+    hs = {}
+    def height(nd):
+        if id(nd) not in hs:
+            hs[id(nd)] = (max(height(k) for k in nd[3]) + rng.randint(1, 2)) if nd[3] else tips[nd[1]]
+        return hs[id(nd)]
+    def rec(nd):
+        for k in nd[3]:
+            k[2] = height(nd) - height(k)
+            rec(k)
+    nested[2] = None
+    rec(nested)
+    return nested
+
+
 def par_files(case, tmpdir):
     """temporary Newick files (written without any dendropy writer) and the trees that count after burn-in"""
     rng = random.Random(case["seed"])
     r, ntax = case["r"], 5
     labels = ["T%d" % (i + 1) for i in range(ntax)]
-    burn = 1 if any(sz == 0 for sz in case["sizes"][:case["F"]]) else 0
+    burn = case.get("burn", 1 if any(sz == 0 for sz in case["sizes"][:case["F"]]) else 0)
+    tips = case.get("tips")             # tip ages (SumTrees --tip-ages): node ages are summarised, trees are dated
+    def fresh(base):
+        c = _relength(base, rng, False)
+        return _dated(c, rng, tips) if tips else c
     shapes = [random_tree(rng, ntax, r, False) for _ in range(2)]
-    first = random_tree(rng, ntax, r, False)
+    first = fresh(random_tree(rng, ntax, r, False))
     files, eff = [], []
     for f in range(case["F"]):
+        if case.get("dup") and f > 0:
+            # the same path listed again: the same trees count again (after the same burn-in)
+            files.append(files[0])
+            eff.extend(dict(t) for t in eff[:ndup])
+            continue
         lines = []
         n = case["sizes"][f] * case["mult"] + burn
         for i in range(n):
             if i < burn:
                 nested, w = first, -1       # burn-in tree: read by discover_taxa, skipped by the analysis
             else:
-                nested = _relength(rng.choice(shapes), rng, False)
+                nested = fresh(rng.choice(shapes))
                 w = rng.choice((-1, 1, 2, 4)) if case["weights"] else -1
                 eff.append({"nested": nested, "w": w})
-            if f == 0 and i == 0:
-                _t1_first(nested)
             tok = r
             if case.get("poison") == [f + 1, i - burn + 1]:
                 tok = 1 - r          # a tree of the other rooting: reading this file raises MixedRootingError
+            if f == 0 and i == 0:
+                _t1_first(nested)
             lines.append(X.newick_of_nested(nested, tok, w, labels))
+        ndup = len(eff)
         path = os.path.join(tmpdir, "f%d.nwk" % (f + 1))
         with open(path, "w") as fh:
             fh.write("\n".join(lines) + "\n")
@@ -404,18 +504,21 @@ def run_par(case):
         for t in eff:
             tr = build.build_tree(dendropy, t["nested"], ns, taxa, rooted=X.rooted_arg(reff))
             graphs.append(proj.tree_graph(tr))
-        st = {"iel": False, "ina": True, "utw": bool(case["weights"])}
+        tips = case.get("tips")
+        st = {"iel": False, "ina": not tips, "utw": bool(case["weights"])}
+        age_map = dict(("T%d" % (i + 1), float(a)) for i, a in enumerate(tips)) if tips else None
 
         def processor():
             return sumtrees.TreeProcessor(
                 is_source_trees_rooted=(case["r"] == 1) if case["explicit"] else None,
-                ignore_edge_lengths=False, ignore_node_ages=True, use_tree_weights=bool(case["weights"]),
+                ignore_edge_lengths=False, ignore_node_ages=not tips, use_tree_weights=bool(case["weights"]),
                 ultrametricity_precision=dendropy.utility.constants.DEFAULT_ULTRAMETRICITY_PRECISION,
-                taxon_label_age_map=None, num_processes=case["W"], log_frequency=case.get("logfreq", 0),
+                taxon_label_age_map=age_map, num_processes=case["W"], log_frequency=case.get("logfreq", 0),
                 messenger=None, debug_mode=True)
         ev = {"action": "ParRun", "mode": case["mode"], "F": case["F"], "W": case["W"], "explicit": bool(case["explicit"]),
               "r": reff, "token": case["r"], "sizes": list(case["sizes"]), "burnin": burn, "async": bool(case.get("async", True)),
-              "trees": graphs, "w": [t["w"] for t in eff], "set": st, "poison": bool(case.get("poison"))}
+              "trees": graphs, "w": [t["w"] for t in eff], "set": st, "poison": bool(case.get("poison")),
+              "tip": [(tips[i] * proj.LSCALE if tips and i < len(tips) else 0) for i in range(64)]}
         # serial route
         raised, ser = _call(lambda: processor().serial_analyze_trees(tree_sources=files, schema="newick", tree_offset=burn))
         ev["ser_raised"] = raised
@@ -489,8 +592,10 @@ def seq_model_cases(ctx):
         prefix.reverse()
         cfg = states[root[u]]["cfg"]
         r = cfg["r"]
-        trees = [{"nested": X.nested_of_graph(cat["graphs"][r][t - 1]), "w": cat["w"][t - 1]} for t in cat["sample"]]
-        cases.append({"kind": "seq", "src": "model", "seed": ctx.seed * 1000003 + n, "r": r, "ntax": 4, "set": dict(DEFAULT_SET),
+        kind = 2 if cfg["ages"] else r          # 2: the rooted ultrametric catalogue, node ages recorded
+        trees = [{"nested": X.nested_of_graph(cat["graphs"][kind][t - 1]), "w": cat["w"][t - 1]} for t in cat["sample"]]
+        cases.append({"kind": "seq", "src": "model", "seed": ctx.seed * 1000003 + n, "r": r, "ntax": 4,
+                      "set": dict(DEFAULT_SET, ina=not cfg["ages"]),
                       "trees": trees, "expl": list(cfg["expl"]), "ops": prefix,
                       "fan": [[a] + list(args) for (_, a, args) in adj[u]]})
     return cases, len(edges)
@@ -498,9 +603,15 @@ def seq_model_cases(ctx):
 
 def par_case(n, seed, mode, F, W, explicit, sizes, schedule, mult=2):
     token = (0, 1)[n % 2] if explicit else (0, 1, -1)[n % 3]
-    return {"kind": "par", "mode": mode, "F": F, "W": W, "explicit": bool(explicit), "r": token, "sizes": list(sizes),
-            "mult": mult, "schedule": schedule, "async": True, "seed": seed * 1000003 + n, "weights": n % 5 == 0,
-            "logfreq": 500 if n % 2 else 0}
+    c = {"kind": "par", "mode": mode, "F": F, "W": W, "explicit": bool(explicit), "r": token, "sizes": list(sizes),
+         "mult": mult, "schedule": schedule, "async": True, "seed": seed * 1000003 + n, "weights": n % 5 == 0,
+         "logfreq": 500 if n % 2 else 0}
+    if token == 1 and n % 4 < 2:
+        # rotated in: dated tips (--tip-ages) and node-age summarisation, on rooted samples
+        c["tips"] = [(n + 2 * i) % 3 for i in range(5)] if (n // 4) % 3 else [0, 1, 0, 2, 1]
+        if not any(c["tips"]):
+            c["tips"][1] = 1
+    return c
 
 
 def probe_protocol(ctx):
@@ -562,7 +673,10 @@ def par_random_cases(ctx, n0):
                      mult=rng.choice((1, 2)))
         c["how"] = "random"
         c["policy"] = rng.choice(("fifo", "lifo"))
-        if n % 8 == 3 and not c["explicit"] and c["r"] in (0, 1):
+        if n % 6 == 1 and "poison" not in c:
+            # the same file listed twice, with a burn-in; logging off so that the serial run reads all sources in one call
+            c.update({"F": 2, "sizes": [max(1, c["sizes"][0])] * 2, "dup": True, "burn": 1, "logfreq": 0})
+        elif n % 8 == 3 and not c["explicit"] and c["r"] in (0, 1):
             live = [f + 1 for f in range(F) if c["sizes"][f] > 0]
             if live and sum(c["sizes"]) * c["mult"] >= 2:      # the foreign tree needs a companion to clash with
                 f = rng.choice(live)
